@@ -3,6 +3,7 @@ package substitution
 import (
 	"bytes"
 	"encoding/json"
+	"errors"
 	"fmt"
 )
 
@@ -70,6 +71,10 @@ func parseTrimToFilter(data string, offset int) (FieldFilter, int, error) {
 	}
 	if err := json.Unmarshal([]byte(args[1]), &cutset); err != nil {
 		return nil, filterEndPos, fmt.Errorf("failed to parse trim_to filter cutset: %w", err)
+	}
+	if cutset == "" {
+		// bytes.LastIndex(src, "") == len(src): Apply would slice src[:len(src)+1]
+		return nil, filterEndPos, errors.New("failed to parse trim_to filter cutset: must be non-empty")
 	}
 	filter := &TrimToFilter{
 		mode:   mode,
